@@ -25,6 +25,7 @@ def dump (st : St) : String :=
 
 def step' (st : St) : List String → St × String
   | ["reset", d] => (init (d = "d" ∨ d = "g"), "ok")
+  | ["reset", d, "lc"] => (init (d = "d" ∨ d = "g"), "ok")   -- destination spelled in lower case: the same protocol
   | ["fund", u, n] => match n.toInt? with
     | some n => ({ st with s := { st.s with srcA := upd st.s.srcA u (st.s.srcA u + n) }, funded := (u, n) :: st.funded }, "ok")
     | none => (st, "bad-op")
@@ -43,6 +44,11 @@ def step' (st : St) : List String → St × String
   | ["rdone", id, k] => doStep st (.robotDone id (k = "right")) id
   | ["cancelA", id] => doStep st (.cancelA id) id
   | ["cancelB", id] => doStep st (.cancelB id) id
+  -- ids are matched exactly: the upper-case spelling of an id names no record
+  | ["doneU", _, _] => (st, "err")
+  | ["doneAU", _, _] => (st, "err")
+  | ["cancelAU", _] => (st, "err")
+  | ["cancelBU", _] => (st, "err")
   | ["dump"] => (st, dump st)
   | _ => (st, "bad-op")
 
